@@ -50,6 +50,9 @@ def cells(tier):
             out.append((channel, kind, "scenario"))
         out.append((channel, "none", "none"))           # a scenario without overrides reproduces the model
         out.append((channel, "constant-zero", "both"))  # an override whose value is falsy (0.0) must still win over the base value
+        if channel != "run_step":
+            out.append((channel, "constant+points", "scenario"))      # two kinds of settings delivered together
+            out.append((channel, "constant+points+dt", "scenario"))
     if tier == "thorough":
         import itertools
         names = ["constant", "points", "starttime", "stoptime", "dt"]
